@@ -87,7 +87,7 @@ def check_rw(item, acc):
                     return RW.random_walk(h, s, T)
 
             try:
-                for script, res, ch, pruned in CH.explore(run):
+                for script, res, ch, pruned in acc.explore(run):
                     acc.evaluations += 1
                     res = [int(x) for x in res]
                     walks.add(tuple(res))
@@ -168,7 +168,7 @@ def check_contagion(item, acc):
 
     seen = set()
     try:
-        for script, res, ch, pruned in CH.explore(run, horizon=400):
+        for script, res, ch, pruned in acc.explore(run, horizon=400):
             acc.evaluations += 1
             if pruned:
                 acc.count("contagion-pruned-at-horizon")
@@ -253,7 +253,7 @@ def run(ctx):
     k = ctx.jobs * 8
     shards = [items[i::k] for i in range(k)]
     flat = [it for s in shards for it in s]
-    ev, nt, oc = run_e4(ctx, flat, worker, nchunks=k)
+    ev, nt, oc = run_e4(ctx, flat, worker, nchunks=k, budget=8000000 if ctx.tier == "quick" else 160000000, config_cap=5000 if ctx.tier == "quick" else 100000)
     ctx.part("inputs", randwalk_hypergraphs=len(rw), contagion_configurations=len(ct), executions=ev)
     ctx.require(len(rw) > 100 and len(ct) > 5000, "corpus too small")
     ctx.sample({"random walk": {"n": rw[(ctx.seed * 5 + 7) % len(rw)][1][0], "edges": [list(e) for e in rw[(ctx.seed * 5 + 7) % len(rw)][1][1]]}})
@@ -262,7 +262,8 @@ def run(ctx):
     cov = {
         "seam_validation": seam_report,
         "states": len(oc), "transitions": ev, "traces_validated_against_impl": ev,
-        "evaluations": ev, "distinct_nontrivial": len(nt), "exhaustive": True,
+        "evaluations": ev, "distinct_nontrivial": len(nt), "exhaustive": not (ctx.counts.get("configurations-capped-by-budget", 0) or ctx.counts.get("configurations-skipped-budget-exhausted", 0)),
+        "configurations_capped_or_skipped_by_execution_budget": ctx.counts.get("configurations-capped-by-budget", 0) + ctx.counts.get("configurations-skipped-budget-exhausted", 0),
         "rule": "random walk: every connected hypergraph on 0..N-1 (N=3 all; N=4 <=3 hyperedges quick / all thorough; N=5 <=3 thorough) - K, stationary state, "
                 "densities from every unit vector and the uniform one, and EVERY sampled walk of length <=3 (each np.random.choice answer with p>0 is a branch; "
                 "the explored set of walks must equal the set of co-membership walks). Contagion: full coin tree - every np.random.random() comparison is a "
